@@ -137,7 +137,7 @@ def enc(t, benv=()):
             return ["app", h.name, tstr(RT), 0, [enc(a, benv) for a in args]]
         return ["other", "redex", "?", 0, []]
     if ty == Term.ABS:
-        return ["other", "abs", "?", 0, []]
+        return ["lam", t.var_name, tstr(t.var_T), 0, [enc(t.body, (t.var_T,) + tuple(benv))]]
     return ["other", "svar", "?", 0, []]
 
 
@@ -146,7 +146,11 @@ def enc(t, benv=()):
 # ------------------------------------------------------------------------------------------------
 
 def ntype(j):
-    return "bool" if j[0] in ("all", "exists") else j[2]
+    if j[0] in ("all", "exists"):
+        return "bool"
+    if j[0] == "lam":
+        return "(" + j[2] + "=>" + ntype(j[4][0]) + ")"
+    return j[2]
 
 
 def number(T, n):
@@ -171,6 +175,8 @@ def build(j):
     if k in ("all", "exists"):
         T = tparse(j[2])
         return Comb(Const(k, TFun(TFun(T, BoolType), BoolType)), Abs(j[1], T, build(j[4][0])))
+    if k == "lam":
+        return Abs(j[1], tparse(j[2]), build(j[4][0]))
     if k in ("op", "app"):
         T = tparse(j[2])
         for c in reversed(j[4]):
@@ -202,9 +208,9 @@ def show(j, names=()):
         return names[j[3]] if j[3] < len(names) else "B%d" % j[3]
     if k == "num":
         return "(%d::%s)" % (j[3], j[2])
-    if k in ("all", "exists"):
+    if k in ("all", "exists", "lam"):
         nm = j[1] + str(len(names))
-        return "(%s%s::%s. %s)" % ("!" if k == "all" else "?", nm, j[2], show(j[4][0], (nm,) + tuple(names)))
+        return "(%s%s::%s. %s)" % ({"all": "!", "exists": "?", "lam": "%"}[k], nm, j[2], show(j[4][0], (nm,) + tuple(names)))
     if k in ("op", "app"):
         if k == "op" and j[1] in INFIX and len(j[4]) == 2:
             return "(%s %s %s)" % (show(j[4][0], names), INFIX[j[1]], show(j[4][1], names))
@@ -284,6 +290,8 @@ def run_z3(out, goal_t, prem_ts, src, routes=("solve",)):
         full = implies_term(prem_ts, goal_t)
         acc, exc = call(lambda: z3w.solve(full), watchdog=True)
         out.emit("z3.solve", full, [], acc, exc, src)
+        if acc == "exc" and not src.endswith(":after-exc"):
+            follow_up(out, enc(full), src)
     if "macro" in routes:
         macro = theory.global_macros["z3"]
         prevs = [Thm(p, p) for p in prem_ts]
@@ -293,6 +301,8 @@ def run_z3(out, goal_t, prem_ts, src, routes=("solve",)):
             return isinstance(th, Thm)
         acc, exc = call(f, watchdog=True)
         out.emit("z3.macro", goal_t, prem_ts, acc, exc, src)
+        if acc == "exc" and not src.endswith(":after-exc"):
+            follow_up(out, enc(implies_term(prem_ts, goal_t)), src)
     if "proof" in routes:
         def g():
             pt = ProofTerm("z3", args=goal_t, prevs=[ProofTerm.assume(p) for p in prem_ts])
@@ -300,6 +310,18 @@ def run_z3(out, goal_t, prem_ts, src, routes=("solve",)):
             return isinstance(th, Thm)
         acc, exc = call(g, watchdog=True)
         out.emit("z3.proof", goal_t, prem_ts, acc, exc, src)
+
+
+def follow_up(out, j, src):
+    """History independence: right after a step that RAISED, every premise of the failed goal (and the conjunction of two of
+    them) is given to the bridge as a goal of its own, in the same process: its verdict must not depend on the failed step."""
+    prems, _ = split_imp(j)
+    prems = [p for p in prems if buildable(p)]
+    goals = list(prems)
+    if len(prems) >= 2:
+        goals.append(Op("conj", "bool", prems[0], prems[1]))
+    for g in goals:
+        run_z3(out, build(g), [], src + ":after-exc", routes=("solve", "macro"))
 
 
 def run_sympy(out, goal_t, prem_ts, src, routes=("fn",)):
@@ -393,7 +415,7 @@ def abstract(j, name, d=0):
     """replace the free variable `name` by the bound variable of a binder put around j"""
     if j[0] == "var":
         return B(d, j[2]) if j[1] == name else j
-    if j[0] in ("all", "exists"):
+    if j[0] in ("all", "exists", "lam"):
         return [j[0], j[1], j[2], j[3], [abstract(j[4][0], name, d + 1)]]
     return [j[0], j[1], j[2], j[3], [abstract(c, name, d) for c in j[4]]]
 
@@ -407,6 +429,25 @@ def all_vars(j, acc):
     for c in j[4]:
         all_vars(c, acc)
     return acc
+
+
+def rename_binders(j, name):
+    """the same term with every binder called `name` (bound variables are nameless: the meaning does not change)"""
+    if j[0] in ("all", "exists", "lam"):
+        return [j[0], name, j[2], j[3], [rename_binders(j[4][0], name)]]
+    return [j[0], j[1], j[2], j[3], [rename_binders(c, name) for c in j[4]]]
+
+
+def has_binder(j):
+    return j[0] in ("all", "exists", "lam") or any(has_binder(c) for c in j[4])
+
+
+def clash_variant(j):
+    """binders renamed to the name of a free variable of the goal (None if there is no binder or no free variable)"""
+    fv = sorted(free_vars(j))
+    if not fv or not has_binder(j):
+        return None
+    return rename_binders(j, fv[0])
 
 
 def free_vars(j, acc=None):
@@ -445,6 +486,9 @@ def mode_z3vec(vec_path, out_path, k, n):
                 run_z3(out, build(concl), [build(p) for p in prems], src, routes=("macro",))
             if v["id"] % 7 == 0:
                 run_z3(out, t, [], src, routes=("proof",))
+            cj = clash_variant(j)
+            if cj is not None and v["id"] % 3 == 1:      # same goal, binders named like a free variable of the goal
+                run_z3(out, build(cj), [], src + ":clash", routes=("solve",))
     out.close()
     if bad:
         raise SystemExit("c06: %d vectors did not round-trip through build/enc" % bad)
@@ -605,7 +649,81 @@ def z3_family():
         Q("all", "z", "real", Op("implies", "bool", memr(B(0, "real"), ivc(r0, r1)), Rel("less", B(0, "real"), r1))),
     ]
     gs += iv
+    gs += function_equalities()
     return gs
+
+
+def function_equalities():
+    """equality at function types: between function variables, lambda terms, partial applications; as premise and as
+    conclusion, positive and negated"""
+    gs = []
+    F_ = Op("false", "bool")
+    p = V("p", "bool")
+    for A, B, el in (("nat", "nat", V("x", "nat")), ("'a", "'a", V("a", "'a")), ("'a", "bool", V("a", "'a")), ("nat", "bool", V("x", "nat")),
+                     ("real", "real", V("r", "real")), ("int", "int", V("i", "int"))):
+        FT = "(%s=>%s)" % (A, B)
+        f, g = V("f", FT), V("g", FT)
+        fx = lambda h, t: App(h, B, t)  # noqa: E731
+        eq = Rel("equals", f, g)
+        pointwise = Q("all", "z", A, Rel("equals", fx("f", B_(0, A)), fx("g", B_(0, A))))
+        gs += [eq, Not(eq), Op("implies", "bool", eq, F_), Op("implies", "bool", Not(eq), F_), Op("implies", "bool", eq, p),
+               Op("implies", "bool", Not(eq), p), Rel("equals", f, f), Not(Rel("equals", f, f)),
+               Op("implies", "bool", eq, Rel("equals", fx("f", el), fx("g", el))),
+               Op("implies", "bool", Rel("equals", fx("f", el), fx("g", el)), eq),
+               Op("implies", "bool", pointwise, eq), Op("implies", "bool", eq, pointwise), Op("equals", "bool", eq, pointwise),
+               Op("implies", "bool", Not(eq), Q("exists", "z", A, Not(Rel("equals", fx("f", B_(0, A)), fx("g", B_(0, A)))))),
+               Op("implies", "bool", Q("exists", "z", A, Not(Rel("equals", fx("f", B_(0, A)), fx("g", B_(0, A))))), Not(eq)),
+               Op("disj", "bool", eq, Not(eq)), Op("conj", "bool", eq, Not(eq)),
+               Rel("equals", ["lam", "z", A, 0, [fx("f", B_(0, A))]], f), Not(Rel("equals", ["lam", "z", A, 0, [fx("f", B_(0, A))]], f)),
+               Rel("equals", ["lam", "z", A, 0, [fx("f", B_(0, A))]], ["lam", "z", A, 0, [fx("g", B_(0, A))]]),
+               Op("implies", "bool", Rel("equals", ["lam", "z", A, 0, [fx("f", B_(0, A))]], ["lam", "z", A, 0, [fx("g", B_(0, A))]]), F_)]
+    # sets are functions too
+    for A, el in (("nat", V("x", "nat")), ("'a", V("a", "'a"))):
+        ST = "(%s set)" % A
+        S, T_ = V("S", ST), V("T", ST)
+        eq = Rel("equals", S, T_)
+        gs += [eq, Not(eq), Op("implies", "bool", eq, F_), Op("implies", "bool", Not(eq), p),
+               Op("implies", "bool", eq, Op("equals", "bool", Op("member", "bool", el, S), Op("member", "bool", el, T_)))]
+    # lambda terms and partial applications over numbers
+    x, y = V("x", "nat"), V("y", "nat")
+    z = B_(0, "nat")
+    lam = lambda b: ["lam", "z", "nat", 0, [b]]  # noqa: E731
+    l1, l2, l3 = lam(Op("plus", "nat", z, N("nat", 1))), lam(Op("plus", "nat", N("nat", 1), z)), lam(Op("plus", "nat", z, N("nat", 2)))
+    px, py = Op("plus", "(nat=>nat)", x), Op("plus", "(nat=>nat)", y)
+    for a, b in ((l1, l2), (l1, l3), (px, py), (px, px), (lam(x), lam(y)), (lam(Op("minus", "nat", z, x)), lam(N("nat", 0)))):
+        eq = Rel("equals", a, b)
+        gs += [eq, Not(eq), Op("implies", "bool", eq, F_), Op("implies", "bool", eq, Rel("equals", x, y)), Op("implies", "bool", Not(eq), p)]
+    return gs
+
+
+def B_(k, T):
+    return B(k, T)
+
+
+def history_family():
+    """(premises, conclusion) whose conclusion is hard or impossible to translate; the driver follows every step that RAISES
+    with the premises as goals of their own (follow_up)"""
+    m, n, r = V("m", "nat"), V("n", "nat"), V("r", "real")
+    a, b = V("a", "'a"), V("b", "'a")
+    prem_sets = [[Rel("less", m, n), Rel("less_eq", n, N("nat", 3))], [Rel("equals", m, N("nat", 7))],
+                 [Rel("less", r, N("real", 0)), Rel("less", m, N("nat", 1))]]
+    S, T_, p = V("S", "(nat set)"), V("T", "(nat set)"), V("p", "bool")
+    hard = [
+        Op("member", "bool", m, Op("IF", "(nat set)", p, S, T_)),
+        Rel("less_eq", Op("of_nat", "real", N("nat", 2)), r),
+        Rel("equals", App("h", "('a=>'a)", a), App("h", "('a=>'a)", b)),
+        Rel("equals", Op("of_nat", "int", m), V("i", "int")),
+        Rel("equals", Op("plus", "(nat=>nat)", m), Op("plus", "(nat=>nat)", n)),
+        Rel("equals", ["lam", "z", "nat", 0, [B(0, "nat")]], V("f", "(nat=>nat)")),
+        Rel("less", Op("nat_divide", "nat", m, n), m),
+        Rel("less", Op("IF", "real", Rel("less", N("nat", 1), N("nat", 2)), r, N("real", 0)), N("real", 1)),
+        Op("xor", "bool", Rel("less", N("nat", 1), N("nat", 2)), p),
+    ]
+    out = []
+    for ps in prem_sets:
+        for c in hard:
+            out.append((ps, c))
+    return out
 
 
 class Gen:
@@ -672,7 +790,7 @@ class Gen:
             return Not(self.formula(scope, d - 1))
         if k < 0.5:
             T = r.choice(self.types + self.types + ["bool", "'a"])
-            nm = r.choice(["u", "v", "w"])
+            nm = r.choice(["u", "v", "w", "m", "n", "i", "j", "r", "s", "p", "a"])    # also names of free variables
             return Q(r.choice(["all", "exists"]), nm, T, self.formula((T,) + tuple(scope), d - 1))
         op = r.choice(["conj", "disj", "implies", "implies", "equals"])
         return Op(op, "bool", self.formula(scope, d - 1), self.formula(scope, d - 1))
@@ -709,6 +827,12 @@ def mode_z3rand(out_path, n, seed, do_setup=True):
         prems, concl = split_imp(j)
         if prems:
             run_z3(out, build(concl), [build(p) for p in prems], "family:%d" % i, routes=("macro",))
+        cj = clash_variant(j)
+        if cj is not None and i % 3 == 0:
+            run_z3(out, build(cj), [], "family:%d:clash" % i, routes=("solve",))
+    for i, (ps, c) in enumerate(history_family()):
+        # goals tried one after the other in this process: a failing step, then its premises as goals (follow_up)
+        run_z3(out, build(c), [build(p) for p in ps], "history:%d" % i, routes=("solve", "macro"))
     rng = random.Random(seed * 7919 + 6)
     gen = Gen(rng)
     for i in range(n):
@@ -826,22 +950,28 @@ def sympy_family(stride=1):
     # interval goals: quadratic and rational inequalities / disequalities on intervals with grid end points
     ivs = [(-1, 1), (0, 1), (1, 2), (Fraction(1, 2), Fraction(3, 2)), (-2, 0), (0, 2), (-1, 3)]
     polys = [[1, 0, -1], [0, 0, 1], [1, 0, 1], [-1, 1], [0, 1], [2, 0, -1], [0, -1, 1], [-2, 1, 1], [1, -2, 1]]
-    for lo, hi in ivs[::stride]:
-        for closed in (True, False):
-            pr = [mem_interval(x, lo, hi, closed)]
-            for cs in polys:
-                p = expanded(cs, x)
-                for rel in ("greater_eq", "greater", "less_eq"):
-                    out.append((Rel(rel, p, rnum(0)), pr))
-                out.append((Not(Rel("equals", p, rnum(0))), pr))
-            for rel in ("greater_eq", "greater", "less_eq", "less"):
-                out.append((Rel(rel, rdiv(x, x), rnum(1)), pr))
-                out.append((Rel(rel, rdiv(rnum(1), x), rnum(0)), pr))
-                out.append((Rel(rel, rdiv(rmul(x, x), x), rnum(1)), pr))
-            out.append((Not(Rel("equals", rdiv(x, x), rnum(0))), pr))
-            out.append((Not(Rel("equals", rdiv(rnum(1), x), rnum(0))), pr))
-            out.append((Not(Rel("equals", x, y)), pr))
-            out.append((Rel("greater_eq", radd(x, y), y), pr))
+    for idx, (lo, hi) in enumerate(ivs[::stride]):
+        goals = []
+        for cs in polys:
+            p = expanded(cs, x)
+            for rel in ("greater_eq", "greater", "less_eq"):
+                goals.append(Rel(rel, p, rnum(0)))
+            goals.append(Not(Rel("equals", p, rnum(0))))
+        for rel in ("greater_eq", "greater", "less_eq", "less"):
+            goals.append(Rel(rel, rdiv(x, x), rnum(1)))
+            goals.append(Rel(rel, rdiv(rnum(1), x), rnum(0)))
+            goals.append(Rel(rel, rdiv(rmul(x, x), x), rnum(1)))
+        goals.append(Not(Rel("equals", rdiv(x, x), rnum(0))))
+        goals.append(Not(Rel("equals", rdiv(rnum(1), x), rnum(0))))
+        goals.append(Not(Rel("equals", rdiv(rnum(1), x), rnum(2))))
+        goals.append(Not(Rel("equals", x, y)))
+        goals.append(Rel("greater_eq", radd(x, y), y))
+        # the same goal on the open and on the closed interval with the same end points, one right after the other in
+        # one process (open first for every other interval): the verdict must not depend on the previous query
+        order = (False, True) if idx % 2 == 0 else (True, False)
+        for g in goals:
+            for closed in order:
+                out.append((g, [mem_interval(x, lo, hi, closed)]))
     return out
 
 
@@ -923,11 +1053,11 @@ class SGen:
             g = Not(Rel("equals", l, rr))
         else:
             g = Rel(r.choice(["less", "less_eq", "greater", "greater_eq"]), l, rr)
-        prems = []
         if r.random() < 0.25:
             lo, hi = sorted(r.sample([-2, -1, Fraction(-1, 2), 0, Fraction(1, 2), 1, Fraction(3, 2), 2, 3], 2))
-            prems = [mem_interval(V("x", R), lo, hi, r.random() < 0.6)]
-        return g, prems
+            first = r.random() < 0.5
+            return [(g, [mem_interval(V("x", R), lo, hi, first)]), (g, [mem_interval(V("x", R), lo, hi, not first)])]
+        return [(g, [])]
 
 
 def mode_sympy(out_path, n, seed, do_setup=True, stride=1):
@@ -945,10 +1075,10 @@ def mode_sympy(out_path, n, seed, do_setup=True, stride=1):
     rng = random.Random(seed * 104729 + 66)
     gen = SGen(rng)
     for i in range(n):
-        g, ps = gen.goal()
-        gt, pts = build(g), [build(p) for p in ps]
-        gt.checked_get_type()
-        run_sympy(out, gt, pts, "rand:%d" % i)
+        for g, ps in gen.goal():
+            gt, pts = build(g), [build(p) for p in ps]
+            gt.checked_get_type()
+            run_sympy(out, gt, pts, "rand:%d" % i)
     out.close()
 
 
